@@ -87,7 +87,7 @@ pub fn c04_configs(tier: Tier) -> Vec<InCfg> {
 
 pub fn run_c03(tier: Tier) -> i32 {
     let mut ck = Check::new("C03", tier, Duration::from_secs(if tier == Tier::Quick { 50 } else { 1500 }));
-    let ecfg = ExploreCfg { max_dev: if tier == Tier::Quick { 0 } else { 1 }, max_execs: if tier == Tier::Quick { 400_000 } else { 8_000_000 }, ..Default::default() };
+    let ecfg = ExploreCfg { max_dev: if tier == Tier::Quick { 1 } else { 2 }, max_execs: if tier == Tier::Quick { 1_500_000 } else { 20_000_000 }, ..Default::default() };
     let known: Vec<String> = ck.known.iter().filter(|k| k.status == "known").map(|k| format!("{}|{}", k.clause, k.witness)).collect();
     for (i, c) in c03_configs(tier).iter_mut().enumerate() {
         c.known = known.clone();
@@ -104,12 +104,23 @@ pub fn run_c03(tier: Tier) -> i32 {
 
 pub fn run_c04(tier: Tier) -> i32 {
     let mut ck = Check::new("C04", tier, Duration::from_secs(if tier == Tier::Quick { 50 } else { 1500 }));
-    let ecfg = ExploreCfg { max_dev: if tier == Tier::Quick { 0 } else { 1 }, max_execs: if tier == Tier::Quick { 500_000 } else { 10_000_000 }, ..Default::default() };
-    for (i, c) in c04_configs(tier).iter().enumerate() {
-        ck.explore::<In>("inbound", i, c, &ecfg);
+    let ecfg = ExploreCfg { max_dev: if tier == Tier::Quick { 1 } else { 2 }, max_execs: if tier == Tier::Quick { 1_500_000 } else { 20_000_000 }, ..Default::default() };
+    let cfgs = c04_configs(tier);
+    let n = cfgs.len();
+    for (i, c) in cfgs.iter().enumerate() {
+        if tier == Tier::Quick {
+            // full length at quiescence only, one request shorter with one injection while runnable
+            // (configuration indices n.. are the shortened variants, see `trace`)
+            ck.explore::<In>("inbound", i, c, &ExploreCfg { max_dev: 0, ..ecfg.clone() });
+            let mut short = c.clone();
+            short.max_len = c.max_len.saturating_sub(1).max(2);
+            ck.explore::<In>("inbound", n + i, &short, &ecfg);
+        } else {
+            ck.explore::<In>("inbound", i, c, &ecfg);
+        }
     }
     ck.rule = format!(
-        "v3 and v5 server: every sequence of up to {} requests over {{PUBLISH q1, PUBLISH q2, PUBREL, PINGREQ, SUBSCRIBE, UNSUBSCRIBE, (v5) AUTH}} with distinct packet ids; publish handler and protocol service each immediately-ready or gated; arrivals one per read or corked into arbitrary groups; handler completions in every order; {} injection(s) while tasks are runnable. Oracle after every step: handler-produced responses on the wire are a prefix of the request order; at the end of healthy runs they are exactly the request order",
+        "v3 and v5 server: every sequence of up to {} requests over {{PUBLISH q1, PUBLISH q2, PUBREL, PINGREQ, SUBSCRIBE, UNSUBSCRIBE, (v5) AUTH}} with distinct packet ids; publish handler and protocol service each immediately-ready or gated; arrivals one per read or corked into arbitrary groups; handler completions in every order; {} injection(s) while tasks are runnable (quick: full length without injection, one request fewer with one). Oracle after every step: handler-produced responses on the wire are a prefix of the request order; at the end of healthy runs they are exactly the request order",
         if tier == Tier::Quick { 4 } else { 5 },
         ecfg.max_dev
     );
@@ -119,14 +130,37 @@ pub fn run_c04(tier: Tier) -> i32 {
 
 pub fn trace(prop: &str, tier: Tier, idx: usize, choices: &[u16], script: Option<Vec<String>>, max_polls: u64) -> crate::simnet::ExecRecord {
     let cfgs = match prop {
-        "C04" => c04_configs(tier),
+        "C04" => {
+            let mut v = c04_configs(tier);
+            let shorts: Vec<InCfg> = v
+                .iter()
+                .map(|c| {
+                    let mut s = c.clone();
+                    s.max_len = c.max_len.saturating_sub(1).max(2);
+                    s
+                })
+                .collect();
+            v.extend(shorts);
+            v
+        }
         "C11" => crate::c11::configs(tier),
         "C12" => crate::c12::configs(tier),
         "C16" => crate::c16::configs(tier),
         "C17" => crate::c17::configs(tier),
         _ => c03_configs(tier),
     };
-    let c = &cfgs[idx];
+    let mut c = cfgs[idx].clone();
+    // like the check itself: monitors keep judging past known findings
+    let prop_static: &'static str = match prop {
+        "C04" => "C04",
+        "C11" => "C11",
+        "C12" => "C12",
+        "C16" => "C16",
+        "C17" => "C17",
+        _ => "C03",
+    };
+    c.known = crate::check::load_known(prop_static).iter().filter(|k| k.status == "known").map(|k| format!("{}|{}", k.clause, k.witness)).collect();
+    let c = &c;
     println!("config #{idx}: {} alphabet={:?}", c.ep.label(), c.alphabet);
     match script {
         Some(sc) => crate::simnet::run_script::<In>(c, &sc, max_polls),
